@@ -454,7 +454,10 @@ pub fn c18(arg: &str) -> (bool, bool, String) {
     for disc in 0u8..3 {
         for &(rk, up, uv) in &[(true, true, true), (false, true, true), (true, false, false), (true, true, false), (false, false, false), (false, true, false)] {
             for &report in &[Ok((true, true)), Ok((false, false)), Err(0x27u8)] {
-                for variant in 0..3 {
+                for variant in 0..6 {
+                    // variants 3..6: the same three requests carrying a pinAuth / pinProtocol (refused by the direct methods, but only
+                    // after their earlier checks: a forwarding body that answers first differs in result or in prompts)
+                    let (pin, variant) = (variant >= 3, variant % 3);
                     n += 1;
                     let seed = RefStore::new(if disc == 1 { 0 } else { disc });
                     let id = register(&seed, "a.example", true);
@@ -467,22 +470,24 @@ pub fn c18(arg: &str) -> (bool, bool, String) {
                         "get_info" => block_on(direct.get_info()) == block_on(Ctap2Api::get_info(&mut via)),
                         "make_credential" => {
                             let req = || { let mut r = mc_request("a.example", rk, up, uv, if variant == 1 { Some(vec![desc(&id)]) } else { None });
-                                           if variant == 2 { r.pub_key_cred_params[0].alg = coset::iana::Algorithm::RS256; } r };
+                                           if variant == 2 { r.pub_key_cred_params[0].alg = coset::iana::Algorithm::RS256; }
+                                           if pin { r.pin_auth = Some(vec![5; 16].into()); r.pin_protocol = Some(1); } r };
                             let a = block_on(direct.make_credential(req())).map(|_| ()).map_err(u8::from);
                             let b = block_on(Ctap2Api::make_credential(&mut via, req())).map(|_| ()).map_err(u8::from);
                             a == b && s1.snapshot().len() == s2.snapshot().len()
                         }
                         _ => {
                             let allow = || if variant == 1 { Some(vec![desc(&id)]) } else if variant == 2 { Some(vec![desc(&[9, 9])]) } else { None };
-                            let a = block_on(direct.get_assertion(ga_request("a.example", allow(), up, uv))).map(|r| (r.auth_data.counter, r.signature.to_vec())).map_err(u8::from);
-                            let b = block_on(Ctap2Api::get_assertion(&mut via, ga_request("a.example", allow(), up, uv))).map(|r| (r.auth_data.counter, r.signature.to_vec())).map_err(u8::from);
+                            let req = || { let mut r = ga_request("a.example", allow(), up, uv); if pin { r.pin_auth = Some(vec![5; 16].into()); r.pin_protocol = Some(1); } r };
+                            let a = block_on(direct.get_assertion(req())).map(|r| (r.auth_data.counter, r.signature.to_vec())).map_err(u8::from);
+                            let b = block_on(Ctap2Api::get_assertion(&mut via, req())).map(|r| (r.auth_data.counter, r.signature.to_vec())).map_err(u8::from);
                             a == b && s1.snapshot() == s2.snapshot()
                         }
                     };
                     let prompts = u1.shown.lock().unwrap().len() == u2.shown.lock().unwrap().len();
                     if !same || !prompts {
-                        return (false, true, format!("{arg}: trait call differs from the direct method ({}) with store discoverability {disc}, options rk={rk} up={up} uv={uv}, user response {report:?}, variant {variant}",
-                            if same { "number of user prompts" } else { "result or store content" }));
+                        return (false, true, format!("{arg}: trait call differs from the direct method ({}) with store discoverability {disc}, options rk={rk} up={up} uv={uv}, user response {report:?}, variant {variant}{}",
+                            if same { "number of user prompts" } else { "result or store content" }, if pin { ", pinAuth present" } else { "" }));
                     }
                 }
             }
